@@ -1316,6 +1316,11 @@ def r12_generated_rule_names(a, tier):
         rep.add({'rule': n, 'method': method, 'run_time_name': rn})
         if rn is None:
             raise AnalysisError(f'C02.R12: the decorated method of rule {n!r} did not hand one RuleInfo to ctx.call (got {ris!r})')
+    # ... and it is the rule's own name: the model's RuleInfo carries Rule.name, and parse information, traces and the memo key show it
+    for n, (method, rn) in run_names.items():
+        if rn != n:
+            rep.fail(wrapper_fn.qualname, f'rule-name:{n}', f'the rule `{n}` (method `{method}`) runs under the name {rn!r} in a generated parser and under {n!r} in the model: '
+                     f'ParseInfo.rule (part of the AST when parseinfo is on) and the traces differ between the two', wrapper_fn.loc)
     by_name: dict = {}
     for n, (method, rn) in run_names.items():
         by_name.setdefault(rn, []).append(n)
